@@ -44,7 +44,7 @@ func c05Op(rng *rand.Rand) string {
 }
 
 func c05Gen(rng *rand.Rand, tier string, w *bufio.Writer) {
-	cases, length, idleCases := 40, 24, 2
+	cases, length, idleCases := 24, 24, 1
 	if tier == "thorough" {
 		cases, length, idleCases = 150, 60, 12
 	}
@@ -87,7 +87,7 @@ func c05Gen(rng *rand.Rand, tier string, w *bufio.Writer) {
 		}
 		tail := []string{"compact", "set 11 late|i64:4242|a3000000000||||", "set 11 c0|i64:999|||a3000000000||", "del c1", "getall"}
 		ops := append([]string{"set 11 " + strings.Join(a, " "), "wait 2500", "set 11 " + strings.Join(b, " "), "wait 2500"}, tail...)
-		emit("p1t", append(append([]string{}, ops...), "wait 2500", "close", "getall", "count"))
+		emit("p1t", append(append([]string{}, ops...), "close", "getall", "count"))
 		ops = append([]string{"set 11 " + strings.Join(a, " "), "set 11 " + strings.Join(b, " ")}, tail...)
 		emit("p0", append(append([]string{}, ops...), "close", "getall", "count"))
 		emit("p1", append(append([]string{}, ops...), "close", "getall", "compact", "inc i64 c0 1 - - -", "restart", "getall"))
@@ -101,9 +101,11 @@ func c05Gen(rng *rand.Rand, tier string, w *bufio.Writer) {
 	// the write ticker (kind p1t, 1 s): the same delete / re-create / delete around ticker runs, zero-like
 	// values written by the ticker rather than by close, and one random history; a wait of 2.5 s
 	// precedes every request whose outcome depends on what the ticker has written
-	emit("p1t", []string{"set 11 k0|i64:5||||| k1|i64:6|||||", "wait 2500", "del k0", "inc i64 k0 1 - - -", "wait 2500", "del k0", "getall", "wait 2500", "close", "getall", "count"})
-	emit("p1t", []string{"set 11 k0|i64:0|a1000000000|u1||| k1|u32s:||||| k2|str:||||| k3|void|||||", "wait 2500", "restart", "getall", "set 11 k0|i64:7|||||", "del k1", "wait 2500", "close", "getall"})
-	{
+	emit("p1t", []string{"set 11 k0|i64:5||||| k1|i64:6|||||", "wait 2500", "del k0", "inc i64 k0 1 - - -", "wait 2500", "del k0", "getall", "close", "getall", "count"})
+	if tier == "thorough" {
+		emit("p1t", []string{"set 11 k0|i64:0|a1000000000|u1||| k1|u32s:||||| k2|str:||||| k3|void|||||", "wait 2500", "restart", "getall", "set 11 k0|i64:7|||||", "del k1", "wait 2500", "close", "getall"})
+	}
+	if tier == "thorough" {
 		var ops []string
 		for j := 0; j < 8; j++ {
 			o := c05Op(rng)
@@ -121,7 +123,7 @@ func c05Gen(rng *rand.Rand, tier string, w *bufio.Writer) {
 	for i := 0; i < cases; i++ {
 		kind := c06Pick(rng, []string{"p0", "p1", "p1", "p0"})
 		closer := "close"
-		if i%5 == 4 {
+		if (tier == "thorough" && i%5 == 4) || i%8 == 7 {
 			closer = "restart"
 		}
 		if i < idleCases {
